@@ -129,6 +129,13 @@ impl Spec {
     r
   }
 
+  /// text and name of the first OriginalSource leaf with non-empty text
+  pub fn find_orig(&self) -> Option<(String, String)> {
+    match self {
+      Spec::Orig { text, name } if !text.is_empty() => Some((text.clone(), name.clone())),
+      _ => self.children().into_iter().find_map(|c| c.find_orig()),
+    }
+  }
   pub fn depth(&self) -> usize {
     let mut d = 0;
     self.walk(&mut |_, k| d = d.max(k), 0);
